@@ -1,6 +1,7 @@
 package main
 
 import (
+	"encoding/hex"
 	"fmt"
 	"reflect"
 	"sort"
@@ -13,6 +14,7 @@ import (
 	"0chain.net/chaincore/threshold/bls"
 	"0chain.net/chaincore/tokenpool"
 	"0chain.net/core/datastore"
+	"0chain.net/core/encryption"
 	"0chain.net/core/util/entitywrapper"
 	"0chain.net/smartcontract/faucetsc"
 	"0chain.net/smartcontract/minersc"
@@ -29,7 +31,7 @@ var c08Assumptions = []string{
 	"stored value of a struct = its exported fields not tagged msg:\"-\" (plus the unexported fields of types generated with msgp -unexported and holding such fields: state.HardFork); caches, mutexes, derived maps (BlobberAllocsMap, ChallengeMap, Pool.Nodes, Partitions.Partitions/locations) are not part of it",
 	"equality ignores the nil / empty distinction of slices and maps, compares time.Time with Equal and floats bitwise",
 	"state.State: TxnHashBytes is a 32-byte hash (as SetTxnHash stores it); TxnHash is derived from it by ComputeProperties",
-	"node pools (magic block): node public keys are valid BLS keys, which the decoder checks",
+	"node pools (magic block, miner global node): node public keys are valid BLS keys and every node's id is the hash of its public key and its SetIndex its position in id order (the stored invariants the pool decoder re-establishes via SetPublicKey / computeNodePositions); free ids and indexes are enumerated on node.Node / client.Client themselves",
 	"entity wrappers: the Version tag is set by the codec (InitVersion) and is not enumerated",
 	"values are decoded into a fresh zero value, as GetTrieNode's callers do",
 }
@@ -60,6 +62,59 @@ func c08FromShim(pkg string, m map[string]func() interface{}) []c08Entry {
 		out = append(out, c08Entry{Name: pkg + "." + n, New: func() c08Codec { return mk().(c08Codec) }})
 	}
 	return out
+}
+
+var c08ClientType = reflect.TypeOf(client.Client{})
+var c08PoolType = reflect.TypeOf(node.Pool{})
+
+// c08FixClientIDs enforces "client id == hash(public key)" (an invariant of every stored node /
+// client, which the node pool decoder re-establishes through SetPublicKey) on a generated value.
+func c08FixClientIDs(v reflect.Value) {
+	switch v.Kind() {
+	case reflect.Ptr:
+		if !v.IsNil() {
+			c08FixClientIDs(v.Elem())
+		}
+	case reflect.Struct:
+		if v.Type() == c08ClientType && v.CanAddr() {
+			c := v.Addr().Interface().(*client.Client)
+			if b, err := hex.DecodeString(c.PublicKey); err == nil {
+				c.ID = encryption.Hash(b)
+			}
+			return
+		}
+		if v.Type() == c08TimeType {
+			return
+		}
+		for i := 0; i < v.NumField(); i++ {
+			if v.Type().Field(i).IsExported() {
+				c08FixClientIDs(v.Field(i))
+			}
+		}
+		if v.Type() == c08PoolType && v.CanAddr() {
+			// inside a pool a node's SetIndex is its position in id order (AddNode and the decoders
+			// both recompute it)
+			p := v.Addr().Interface().(*node.Pool)
+			var ns []*node.Node
+			for _, n := range p.NodesMap {
+				if n != nil {
+					ns = append(ns, n)
+				}
+			}
+			sort.SliceStable(ns, func(i, j int) bool { return ns[i].GetKey() < ns[j].GetKey() })
+			for i, n := range ns {
+				n.SetIndex = i
+			}
+		}
+	case reflect.Slice:
+		for i := 0; i < v.Len(); i++ {
+			c08FixClientIDs(v.Index(i))
+		}
+	case reflect.Map:
+		for it := v.MapRange(); it.Next(); {
+			c08FixClientIDs(it.Value())
+		}
+	}
 }
 
 var c08NodeKeys = []any{c26PublicKeys[0], c26PublicKeys[1], c26PublicKeys[2]}
@@ -159,8 +214,8 @@ func c08Registry() []c08Entry {
 
 	// magic block and what it is made of
 	mbAlpha := map[string][]any{"PublicKey": c08NodeKeys}
-	es = append(es, c08Entry{Name: "node.Pool", New: func() c08Codec { return &node.Pool{} }, Alphabets: mbAlpha})
-	es = append(es, c08Entry{Name: "block.MagicBlock", New: func() c08Codec { return &block.MagicBlock{} }, Alphabets: mbAlpha})
+	es = append(es, c08Entry{Name: "node.Pool", New: func() c08Codec { return &node.Pool{} }, Alphabets: mbAlpha, Fix: c08FixClientIDs})
+	es = append(es, c08Entry{Name: "block.MagicBlock", New: func() c08Codec { return &block.MagicBlock{} }, Alphabets: mbAlpha, Fix: c08FixClientIDs})
 	add("node.Node", c08Ptr[node.Node]())
 	add("node.Info", c08Ptr[node.Info]())
 	add("client.Client", c08Ptr[client.Client]())
@@ -193,7 +248,7 @@ func c08Registry() []c08Entry {
 	add("faucetsc.FaucetConfig", c08Ptr[faucetsc.FaucetConfig]())
 
 	// miner contract: nodes, phase / DKG records, settings
-	es = append(es, c08Entry{Name: "minersc.GlobalNode", New: c08Ptr[minersc.GlobalNode](), Alphabets: mbAlpha})
+	es = append(es, c08Entry{Name: "minersc.GlobalNode", New: c08Ptr[minersc.GlobalNode](), Alphabets: mbAlpha, Fix: c08FixClientIDs})
 	add("minersc.GlobalSettings", c08Ptr[minersc.GlobalSettings]())
 	add("minersc.MinerNode", c08Ptr[minersc.MinerNode]())
 	add("minersc.MinerNodes", c08Ptr[minersc.MinerNodes]())
